@@ -180,6 +180,10 @@ int main(int argc, char **argv)
 	step_budget = 60ULL * (REF.delivered + 20000);
 
 	vh_cfg.perturb_seed = pseed;
+	if(fp_level >= 10) { /* serialized, seeded scheduling instead of random delays */
+		vh_cfg.baton = true;
+		fp_level = 0;
+	}
 	vh_cfg.fp_level = fp_level;
 	vh_cfg.monitors = true;
 	vh_cfg.poison = true;
@@ -281,6 +285,8 @@ int main(int argc, char **argv)
 			printf("STAT %s %llu\n", vh_counter_name[c], vh_counter_total(c));
 	}
 	printf("STAT threads_effective_%u 1\n", eff_threads);
+	if(vh_cfg.baton)
+		printf("STAT baton_runs 1\nSTAT baton_switches %llu\n", vh_baton_switches());
 	if(VM.sparse_lp >= 0 && (unsigned)VM.sparse_lp >= lp_lo && (unsigned)VM.sparse_lp < lp_hi)
 		printf("STAT sparse_lp_models 1\nSTAT sparse_lp_events_undone %u\nSTAT sparse_lp_models_with_undone_event %d\n", vh_lp_undone((uint64_t)VM.sparse_lp), vh_lp_undone((uint64_t)VM.sparse_lp) > 0);
 	if(nontrivial)
